@@ -62,6 +62,7 @@ structure Acc where
   detachCalled : Bool := false
   hupWon : Bool := false
   setReq : Bool := false
+  orAtHup : Bool := false       -- an OnRequest handler was set when the hang-up goroutine won closeBy
   bad : List String := []
 
 def Acc.fail (a : Acc) (msg : String) : Acc := { a with bad := a.bad ++ [msg] }
@@ -126,7 +127,7 @@ def feed (cfg : Cfg) (a : Acc) : Ev → Acc
   | .userClose => { a with userClosed := true }
   | .detachWon => { a with detachWon := true }
   | .detachCall => { a with detachCalled := true }
-  | .hupWon => { a with hupWon := true }
+  | .hupWon => { a with hupWon := true, orAtHup := cfg.hasOR ∧ (cfg.server ∨ a.setReq) }
   | .deliver => if cfg.server ∧ !a.prepEnded then a.fail "C09 event delivered before OnPrepare returned" else a
   | .setReq => { a with setReq := true }
 
@@ -136,7 +137,8 @@ def finish (cfg : Cfg) (a : Acc) (sm : Summary) : Acc :=
     a.fail s!"run did not reach quiescence: {sm.status}"
   else
     let hasOR := cfg.hasOR ∧ (cfg.server ∨ a.setReq)
-    let owed := a.userClosed ∨ (a.hupWon ∧ (cfg.hasOC ∨ hasOR))
+    -- SetOnRequest racing with / after the hang-up: the hang-up goroutine may or may not have seen the handler
+    let owed := a.userClosed ∨ (a.hupWon ∧ (cfg.hasOC ∨ a.orAtHup))
     let ran := (List.range cfg.ncb).all (fun k => count a.cbCount (k + 1) == 1)
     let a1 := if owed ∧ !ran then a.fail "C05 connection closed but the close callbacks did not run exactly once" else a
     let a2 := if owed ∧ a.slotFrees ≠ 1 then a1.fail "C05 connection closed but the poller slot was not freed exactly once" else a1
